@@ -1,28 +1,69 @@
-(* Props/C08.v — Type inference reconstructs exactly the erased shape annotations.
-   (interim: the recomputation functions of the loop are the shape functions of the primitives; the loop-level
-   restoration theorem from Proofs/RestoreProofs.v is added when that library is complete) *)
-From NIR Require Import Model.Graph Proofs.ShapesProofs Proofs.NodesProofs Proofs.InferProofs.
+(* Props/C08.v — Type inference reconstructs exactly the erased shape annotations. *)
+From NIR Require Import Model.Graph Proofs.ShapesProofs Proofs.NodesProofs Proofs.InferProofs
+                        Proofs.RestoreProofs.
 
-(* an erased Flatten is recomputed to the merge of its input shape *)
+(* Hypotheses (Proofs/RestoreProofs.v): `wf_graph T ch es` — distinct child names, at least one Input,
+   every edge joins children and is consistent w.r.t. the ground truth T (out(a) = in(b)), every child is
+   either ANNOTATED with its truth or ERASED-and-recomputable (Conv/Pool/Flatten with undefined types
+   whose recomputation from the true input gives the true output; an Output with an undefined or wrong
+   shape).  `wf_graphb` is an executable, sound checker of these hypotheses. *)
+
+(* the inductive step: one popped edge restores the truth on its target and raises nothing *)
+Theorem c08_step_restores : forall (t : list Z * list Z) (pre post : node),
+  is_graph pre = false -> node_tout pre = arr_ty "output" (fst t) ->
+  annotated t post \/ erased_ok t post ->
+  exists post',
+    apply_edge pre post = (post', None) /\ annotated t post' /\
+    node_kind post' = node_kind post /\ (annotated t post -> post' = post).
+Proof. exact restore_step. Qed.
+
+(* DFS completeness of the work-list, on every graph: when the loop finishes, every child reachable from
+   an Input along edges has been processed (or is an Input) *)
+Theorem c08_worklist_covers_reachable : forall fuel ch es st',
+  run fuel es (init_state ch es) = (st', Finished) ->
+  forall c, reach ch es c ->
+    In c (st_seen st') \/ (exists n, In (c, n) ch /\ is_input n = true).
+Proof. exact restore_reachable. Qed.
+
+(* THE PROPERTY: on a consistent graph with any subset of the erasable annotations erased (or an Output
+   shape wrong), infer_types returns normally, and every child reachable from an Input carries exactly
+   the types of the fully annotated graph — no type undefined, Output nodes included *)
+Theorem c08_infer_restores : forall T ch es m, wf_graph T ch es ->
+  exists ch',
+    infer_types (mk_graph ch es m) = (mk_graph ch' es m, Finished) /\
+    map fst ch' = map fst ch /\
+    (forall c n', assoc c ch' = Some n' -> child_ok T c n') /\
+    (forall c, reach ch es c -> exists n', assoc c ch' = Some n' /\ annotated (T c) n').
+Proof. exact infer_restores. Qed.
+
+(* ... and when every node is reachable, the result passes the type check *)
+Theorem c08_infer_then_check : forall T ch es m, wf_graph T ch es ->
+  (forall c, In c (map fst ch) -> reach ch es c) ->
+  forall g' oc, infer_types (mk_graph ch es m) = (g', oc) ->
+    oc = Finished /\ check_types g' = Ok true /\
+    exists ch', g' = mk_graph ch' es m /\ map fst ch' = map fst ch /\
+      forall c, In c (map fst ch) ->
+        exists k fs, assoc c ch' = Some (Leaf k fs (arr_ty "input" (fst (T c))) (arr_ty "output" (snd (T c)))).
+Proof. exact infer_then_check. Qed.
+
+(* the executable checker of the hypotheses is sound *)
+Theorem c08_hypotheses_checkable : forall T ch es, wf_graphb T ch es = true -> wf_graph T ch es.
+Proof. exact wf_graphb_sound. Qed.
+
+(* the recomputation functions are the shape functions of the primitives (C06 / C07) *)
 Theorem c08_flatten_recomputed : forall (sh : list Z) (s e : Z) fs pre,
   fld "start_dim" fs = Ok (VInt s) -> fld "end_dim" fs = Ok (VInt e) -> valid_dims sh s e ->
   derive_output KFlatten fs pre [("input", TArr sh)] = (fs, Some [("output", TArr (flatten_out sh s e))], None).
 Proof. exact flatten_infer. Qed.
 
-(* a pooling node is recomputed with the convolution arithmetic (dilation 1), channel copied *)
-Theorem c08_pool_recomputed : forall (k : kind) fs (c : Z) (sp out : list Z) (ks stride pad : pval),
-  k = KSumPool2d \/ k = KAvgPool2d ->
-  fld "kernel_size" fs = Ok ks -> fld "stride" fs = Ok stride -> fld "padding" fs = Ok pad ->
-  conv_out (HArr sp) (hp_of pad) (HInt 1) (hp_of ks) (hp_of stride) = Ok out ->
-  derive_output k fs [("output", TArr (c :: sp))] [("input", TArr (c :: sp))] =
-  (fs, Some [("output", TArr (c :: out))], None).
-Proof. exact pool_infer. Qed.
+(* non-vacuity: Input [2;8;8] -> Conv2d(input_shape None, 3x3) -> Flatten(None) -> Output(None), plus a fan-out
+   edge into an Output with a WRONG shape, all built with the model's constructors, satisfies the hypotheses *)
+Example c08_example : wf_graph ex_T ex_ch ex_es.
+Proof. exact ex_wf. Qed.
 
-(* the loop always terminates within the model's fuel, on every topology *)
-Theorem c08_loop_terminates : forall ch es,
-  snd (run (infer_fuel ch es) es (init_state ch es)) <> Raised OutOfFuel.
-Proof. exact infer_fuel_suffices. Qed.
-
+Print Assumptions c08_step_restores.
+Print Assumptions c08_worklist_covers_reachable.
+Print Assumptions c08_infer_restores.
+Print Assumptions c08_infer_then_check.
+Print Assumptions c08_hypotheses_checkable.
 Print Assumptions c08_flatten_recomputed.
-Print Assumptions c08_pool_recomputed.
-Print Assumptions c08_loop_terminates.
